@@ -93,9 +93,26 @@ package keeper
 
 // sending (route-specific; may charge the route fee through the bandtss / ibc keepers) only rewrites the
 // packet's own record (adding the receipt)
-//@ func (k Keeper) SendPacket
+// ghost: how many packets the routes have accepted (a route either accepts the packet - and charges the route fee - or
+// fails; a panic inside a route is neither)
+//@ ghost RouteSent Int
+//@ func (k Keeper) SendTSSPacket
 //@ trusted
-//@ modifies Store_tunnel, Bank, Other
+//@ may_panic calls
+//@ modifies Bank, Other, RouteSent
+//@ ensures err == nil ==> RouteSent == old(RouteSent) + 1
+//@ ensures err != nil ==> RouteSent == old(RouteSent)
+//@ func (k Keeper) SendIBCPacket
+//@ trusted
+//@ may_panic calls
+//@ modifies Bank, Other, RouteSent
+//@ ensures err == nil ==> RouteSent == old(RouteSent) + 1
+//@ ensures err != nil ==> RouteSent == old(RouteSent)
+// A packet is reported as sent (err == nil) only when exactly one route accepted it; an error OR A PANIC anywhere in
+// the send (recovered here) is reported as an error, so that the caller discards the attempt
+//@ func (k Keeper) SendPacket
+//@ modifies Store_tunnel, Bank, Other, RouteSent
+//@ ensures err == nil ==> RouteSent == old(RouteSent) + 1
 //@ ensures forall q Bz :: q != types.TunnelPacketStoreKey(packet.TunnelID, packet.Sequence) ==> Store_tunnel[q] == old(Store_tunnel)[q]
 //@ ensures err == nil ==> has(Store_tunnel, types.TunnelPacketStoreKey(packet.TunnelID, packet.Sequence))
 //@ ensures err == nil ==> packetAt(Store_tunnel, packet.TunnelID, packet.Sequence).Sequence == packet.Sequence && packetAt(Store_tunnel, packet.TunnelID, packet.Sequence).Prices == packet.Prices
@@ -106,7 +123,7 @@ package keeper
 // Nothing to send: no effect at all. Otherwise the packet takes the next sequence number, carries those prices,
 // the remembered prices are merged with them, and the interval clock restarts ONLY on an interval (full) send.
 //@ func (k Keeper) ProducePacket
-//@ modifies Store_tunnel, Bank, Other
+//@ modifies Store_tunnel, Bank, Other, RouteSent
 //@ requires wfTunnel(Store_tunnel, tunnelID) && wfLP(Store_tunnel, tunnelID)
 // the store invariant (every tunnel and latest-prices record is filed under its own id, fee payers are addresses) is kept
 //@ requires forall t Int :: wfTunnel(Store_tunnel, t) && wfLP(Store_tunnel, t)
@@ -137,7 +154,7 @@ package keeper
 // If the tunnel can pay and production fails at any step, nothing of the attempt persists: the module
 // store, the bank state and every other module reached by the route are exactly as before.
 //@ func (k Keeper) ProduceActiveTunnelPacket
-//@ modifies Store_tunnel, Bank, Other
+//@ modifies Store_tunnel, Bank, Other, RouteSent
 //@ requires wfTunnel(Store_tunnel, tunnelID) && wfLP(Store_tunnel, tunnelID)
 //@ ensures err != nil ==> Bank == old(Bank) && Other == old(Other) && Store_tunnel == old(Store_tunnel)
 //@ requires forall t Int :: wfTunnel(Store_tunnel, t) && wfLP(Store_tunnel, t)
@@ -149,7 +166,7 @@ package keeper
 //@ func (k Keeper) GetActiveTunnelIDs
 //@ loop 0: invariant 0 <= itpos(iterator) && itpos(iterator) <= itlen(iterator)
 //@ func (k Keeper) ProduceActiveTunnelPackets
-//@ modifies Store_tunnel, Bank, Other
+//@ modifies Store_tunnel, Bank, Other, RouteSent
 //@ requires forall t Int :: wfTunnel(Store_tunnel, t) && wfLP(Store_tunnel, t)
 //@ ensures err == nil
 //@ ensures forall t Int :: wfTunnel(Store_tunnel, t) && wfLP(Store_tunnel, t)
@@ -228,7 +245,7 @@ package keeper
 // since now); remembered prices are merged with the packet's. On failure of the creator / activity / funds checks
 // nothing changes.
 //@ func (k msgServer) TriggerTunnel
-//@ modifies Store_tunnel, Bank, Other
+//@ modifies Store_tunnel, Bank, Other, RouteSent
 //@ requires wfTunnel(Store_tunnel, msg.TunnelID) && wfLP(Store_tunnel, msg.TunnelID)
 //@ ensures err == nil ==> old(has(Store_tunnel, types.TunnelStoreKey(msg.TunnelID))) && old(tunnelAt(Store_tunnel, msg.TunnelID)).Creator == msg.Creator && old(tunnelAt(Store_tunnel, msg.TunnelID)).IsActive
 //@ ensures err == nil ==> tunnelAt(Store_tunnel, msg.TunnelID).Sequence == wrapu64(old(tunnelAt(Store_tunnel, msg.TunnelID)).Sequence + 1)
